@@ -3,7 +3,14 @@ package main
 // SplitMix64: every random choice of a run derives from one state seeded by VERIF_SEED.
 type Rng struct{ s uint64 }
 
-func NewRng(seed uint64) *Rng { return &Rng{s: seed*0x9E3779B97F4A7C15 + 0x1234567} }
+// The initial state is a fully mixed function of the seed: with the raw affine state
+// (seed+n)*GAMMA+c, nearby seeds would produce the same stream shifted by a few draws.
+func NewRng(seed uint64) *Rng {
+	z := seed*0x9E3779B97F4A7C15 + 0x1234567
+	z = (z ^ (z >> 30)) * 0xBF58476D1CE4E5B9
+	z = (z ^ (z >> 27)) * 0x94D049BB133111EB
+	return &Rng{s: z ^ (z >> 31)}
+}
 
 func (r *Rng) U64() uint64 {
 	r.s += 0x9E3779B97F4A7C15
